@@ -17,14 +17,15 @@ def run(ctx):
         short = [l for l in lists if len(l[1]) <= 20000]
         longs = [l for l in lists if len(l[1]) > 20000]
         rnd.shuffle(longs)
-        lists = short + longs[:2]
+        directed = [l for l in longs if l[0].startswith("long-rebuild") or l[0] == "long-uniform-all-codes"]
+        lists = short + directed + [l for l in longs if l not in directed][:2]
     else:
         lists = gen.gen_cmd_lists(rnd, False)
     cases = [("-lh1-", name, "lh1enc %s" % gen.cmds_str(cmds)) for name, cmds in lists]
     return rtcheck.roundtrip(ctx, PID, cases,
         "command lists engineered for frequency ties (round-robin over k symbols, alternating pairs, long runs, single symbol, "
         "geometric/Fibonacci distributions), all 64 upper-offset codes, copy lengths 3 and 60, offsets 0 and 4095, lists of more "
-        "than 70000 symbols (several tree rebuilds), encoded by the extracted LZHUF transliteration; the C decoder's output must equal "
+        "than 70000 symbols (several tree rebuilds), never-used codes first used right after the first / second rebuild, uniform use of all 314 codes across rebuilds, encoded by the extracted LZHUF transliteration; the C decoder's output must equal "
         "the LZ77 expansion; model decoder compared. non-trivial = distinct case with output", model_limit=400000)
 
 
